@@ -545,14 +545,9 @@ def rule_forced_pathname(ctx: Ctx, rule: str) -> None:
                    witness="glob.globmatch('a/b', '*') / FORCEWIN|FORCEUNIX cancellation would depend on the entry point")
     ctx.floor(rule, 'flag hand-overs from glob.py', n, 11)
     # who may write Glob.flags / negate_flags
+    from .common import pinned_writers
     for attr in ('flags', 'negate_flags'):
-        writers = set()
-        for fi in repo.cls('glob', 'Glob').methods.values():
-            for node in walk_no_nested(fi.node):
-                if isinstance(node, (ast.Assign, ast.AugAssign, ast.AnnAssign)):
-                    tg = node.targets if isinstance(node, ast.Assign) else [node.target]
-                    if any(norm_src(t) == f'self.{attr}' for t in tg):
-                        writers.add(fi.name)
+        writers = pinned_writers(repo, 'glob', 'Glob', attr)
         ctx.ob(rule, f'glob:Glob/self.{attr}-writers', writers == {'__init__'}, repo.loc('glob', repo.cls('glob', 'Glob').node),
                'written only in __init__', str(sorted(writers)))
     from . import ginit
